@@ -3,13 +3,14 @@ import PonyVerif.Model.KeyIndex
 /-
   Line-protocol entry for the key-index model (C11; the session ops of C14 reuse the JSON readers).
   request : {"op":"run","schema":{"nattrs":3,"keys":[[0],[1,2]],"parent":[null,0]},
-             "ops":[{"k":"create","cls":0,"pk":[1]|null,"vals":[5,null,7],"lateFail":false}
+             "groups":[[{"k":"create","cls":0,"pk":[1]|null,"vals":[5,null,7],"lateFail":false}
                     | {"k":"seed","cls":0,"pk":[1]}
                     | {"k":"load","cls":0,"pk":[1],"vals":[5,null,"NL"],"used":[0],"unpickling":false}
                     | {"k":"set","o":0,"changes":[[0,5],[1,null]]} | {"k":"read","o":0,"a":1} | {"k":"delete","o":0}
                     | {"k":"saveCreated","o":0,"newId":7|null} | {"k":"saveUpdated","o":0} | {"k":"saveDeleted","o":0}
-                    | {"k":"find","cls":0,"pk":[1]|null,"kw":[[0,5]]} | {"k":"proxy","o":0}]}
-  reply   : {"steps":[{"err":null|"CacheIndexError"..,"yield":null|id,"inv":bool,"objs":[..],"pk":[[key,o]..],"ixs":[[[key,o]..]..],"queue":[..]}]}
+                    | {"k":"find","cls":0,"pk":[1]|null,"kw":[[0,5]]} | {"k":"proxy","o":0}], ..]}
+            (one group = the model ops of ONE real call; a group stops at its first error)
+  reply   : {"steps":[{"err":null|"CacheIndexError"..,"yields":[null|id..],"ran":k,"inv":bool,"objs":[..],"pk":[[key,o]..],"ixs":[[[key,o]..]..],"queue":[..]}]}
 -/
 namespace PonyVerif.Drive.C11
 open Lean PonyVerif.Drive PonyVerif.Model.KeyIndex
@@ -126,17 +127,29 @@ def dumpSess (sch : Schema) (s : Sess) : List (String × Json) :=
    ("ixs", .arr ((allKeys sch).map fun i => jIndex (s.ixs i)).toArray),
    ("queue", toJson s.queue)]
 
+/-- one real call = one GROUP of model ops, run until the first error (the exception ends the call) -/
+def runGroup (sch : Schema) (s : Sess) : List Op → (Sess × Option Err × List (Option ObjId) × Bool × Nat) → (Sess × Option Err × List (Option ObjId) × Bool × Nat)
+  | [], acc => acc
+  | op :: ops, (_, _, ys, inv, k) =>
+      let (s', r) := stepR sch s op
+      let inv' := inv && checkInv sch s'
+      match r.err with
+      | some e => (s', some e, ys, inv', k + 1)
+      | none => runGroup sch s' ops (s', none, ys ++ [r.yield], inv', k + 1)
+
 def handle (j : Json) : Except String Json := do
   let op ← argStr j "op"
   match op with
   | "run" =>
       let sch ← schemaOfJson (← j.getObjVal? "schema")
-      let ops ← (← argArr j "ops").mapM opOfJson
-      let (_, outs) := ops.foldl (fun (acc : Sess × List Json) op =>
-        let (s', r) := stepR sch acc.1 op
-        (s', Json.mkObj ([("err", match r.err with | none => Json.null | some e => Json.str (errName e)),
-                          ("yield", jOptNat r.yield),
-                          ("inv", toJson (checkInv sch s'))] ++ dumpSess sch s') :: acc.2)) (Sess.empty, [])
+      let groups ← (← argArr j "groups").mapM fun g => match g with
+        | .arr a => a.toList.mapM opOfJson
+        | _ => throw "groups: list of lists of ops expected"
+      let (_, outs) := groups.foldl (fun (acc : Sess × List Json) g =>
+        let (s', e, ys, inv, k) := runGroup sch acc.1 g (acc.1, none, [], true, 0)
+        (s', Json.mkObj ([("err", match e with | none => Json.null | some e => Json.str (errName e)),
+                          ("yields", .arr (ys.map jOptNat).toArray), ("ran", toJson k),
+                          ("inv", toJson inv)] ++ dumpSess sch s') :: acc.2)) (Sess.empty, [])
       pure (Json.mkObj [("steps", .arr outs.reverse.toArray)])
   | _ => throw s!"unknown op {op}"
 end PonyVerif.Drive.C11
